@@ -99,6 +99,29 @@ def run(tier):
                     rng.shuffle(el2)
                     docs.append(build(kind, el2))
                     expect.append(("nodup", kind, n, a, b))
+        # distinct values with EQUAL hashes (namespace and name bytes are hashed without a separator) between the two
+        # members of an equal pair: a strategy that only compares neighbours inside a run of equal hashes misses these
+        colliders = [[b":a/bc", b":abc", b":ab/c"], [b"a/bc", b"abc", b"ab/c"], [b"[a/bc]", b"[abc]", b"(ab/c)"], [b"#t :a/bc", b"#t :abc", b"#t :ab/c"]]
+        for kind in ("set", "map"):
+            for n in [3, 4, 16, 17, 18, 100, 1000, 1001]:
+                for grp in colliders:
+                    x, y, z = grp
+                    for seq, dup in (([x, y, x], True), ([y, x, z, y], True), ([x, y, z, x], True), ([x, y, z], False), ([z, y, x], False)):
+                        if n < len(seq):
+                            continue
+                        for where in ("front", "back", "spread"):
+                            fl = fillers(n - len(seq))
+                            if where == "front":
+                                el = seq + fl
+                            elif where == "back":
+                                el = fl + seq
+                            else:
+                                el = list(fl)
+                                step = max(1, len(el) // len(seq))
+                                for qi, q in enumerate(seq):
+                                    el.insert(min(len(el), qi * step + qi), q)
+                            docs.append(build(kind, el))
+                            expect.append(("dup" if dup else "nodup", kind, n, seq[0], seq[-1]))
         # mixed-kind pairwise-unequal literals of generated values
         for _ in range(40 if tier == "quick" else 300):
             n = rng.choice([5, 17, 40, 120])
